@@ -248,6 +248,11 @@ class workq:
     def pushjob(self, job):
         if job.serial is None:
             self.count += 1
+            if job.jobid is None:
+                # the serial becomes the job id: never take over an id that is in use
+                # (a client may have chosen an integer id explicitly)
+                while self.count in self.id2job:
+                    self.count += 1
             job.serial = self.count
 
         if job.jobid is None:
